@@ -182,6 +182,12 @@ def body_nb_landmarks(ctx, job):
             res = ctx.call('classify:natural_breaks', raster(d, attrs={'res': 1}, name='a'), 20000, 'nb', k)
             out = _plain_list(vals(res))
             _landmark_claims(ctx, cellsv, out, k, 'natural_breaks')
+            if len(cellsv) >= 6:
+                # the sub-sampling branch (num_sample < size): breaks come from a sample, the class range / order / top-class claims must still hold
+                d = symnp.asarray([cellsv], 'float64').copy()
+                res = ctx.call('classify:natural_breaks', raster(d, attrs={'res': 1}, name='a'), 4, 'nb', k)
+                out = _plain_list(vals(res))
+                _landmark_claims(ctx, cellsv, out, k, 'natural_breaks(num_sample=4)')
 
 
 def body_datadriven(ctx, job):
